@@ -21,9 +21,9 @@ import (
 	"github.com/notaryproject/notation-core-go/signature"
 	"github.com/notaryproject/notation-go"
 	"github.com/notaryproject/notation-go/plugin"
+	"github.com/notaryproject/notation-go/verifharness/lib"
 	"github.com/notaryproject/notation-go/verifier"
 	"github.com/notaryproject/notation-go/verifier/trustpolicy"
-	"github.com/notaryproject/notation-go/verifharness/lib"
 	pf "github.com/notaryproject/notation-plugin-framework-go/plugin"
 	ocispec "github.com/opencontainers/image-spec/specs-go/v1"
 )
@@ -538,12 +538,12 @@ func main() {
 	// must decide exactly as the model says for that cell alone (state carried from the first one is a violation).
 	{
 		type pairT struct {
-			plugin     string
-			reversed   bool
-			vTI, vREV  string
-			L1, L2     lib.LevelMap
-			ident      bool
-			rev        string
+			plugin    string
+			reversed  bool
+			vTI, vREV string
+			L1, L2    lib.LevelMap
+			ident     bool
+			rev       string
 		}
 		var pairs []pairT
 		lm := lib.AllLevelMaps()
@@ -688,7 +688,6 @@ func (l legacy) Validate(chain []*x509.Certificate, t time.Time) ([]*result.Cert
 	return l.r.ValidateContext(context.Background(), revocation.ValidateContextOptions{CertChain: chain, AuthenticSigningTime: t})
 }
 
-
 // sharedPlug hands out the SAME metadata object on every GetMetadata call (as an in-process plugin may).
 type sharedPlug struct {
 	plug
@@ -702,4 +701,4 @@ func (p *sharedPlug) GetMetadata(ctx context.Context, req *pf.GetMetadataRequest
 type sharedMgr struct{ p *sharedPlug }
 
 func (m *sharedMgr) Get(ctx context.Context, name string) (pf.Plugin, error) { return m.p, nil }
-func (m *sharedMgr) List(ctx context.Context) ([]string, error)               { return nil, nil }
+func (m *sharedMgr) List(ctx context.Context) ([]string, error)              { return nil, nil }
